@@ -325,6 +325,10 @@ def check_C19(ctx):
     import dd.bdd as _bdd
     import dd._abc as _abc
     _h, _changed, data = extract.write_ctables()
+    if 'error' in data:
+        ctx.violation('the reader of the .pyx files failed: ' + data['error'],
+                      dict(tags=dict(call='cpyx.extract_all', symptom='reader-failed')))
+        return
     vocab = sorted(_abc.BDD_OPERATOR_SYMBOLS)
     ref = _bdd.BDD()
     ref.declare('x', 'y')
